@@ -55,7 +55,7 @@ func c08World(t *testing.T, p c08Params) rt.Result {
 	hdr, _ := hex.DecodeString(p.Header)
 	faults := headerFaults(hdr)
 	r := rt.Get().Rand("c08w", int(p.Seed))
-	out := hz.Run(t, hz.Opts{Seed: p.Seed, HookMode: p.Hook}, func(w *hz.World) {
+	out := hz.Run(t, hz.Opts{Seed: p.Seed, HookMode: p.Hook, WriteYields: 3}, func(w *hz.World) {
 		ps := hz.StdPeer("10.0.1.1")
 		ps.Passive = p.Dir == "in"
 		v := pickVariety(r, p.Dir)
